@@ -224,6 +224,13 @@ where
 
         {
             let mut guard = self.group.write();
+
+            // Another task may have created the keyspace while we were spawning ours,
+            // in which case everyone must keep using the state which is already registered.
+            if let Some(existing) = guard.get(&name) {
+                return existing.clone();
+            }
+
             guard.insert(name.clone(), state.clone());
         }
 
